@@ -79,6 +79,10 @@ class iindex(dict):
                 "iindex.shape MUST be of type 'tuple', not %s." % repr(shape)
             )
         self.shape = shape
+        if isinstance(common, numpy.generic):
+            # The common value becomes a coordinate as soon as it is shifted
+            # away, and coordinates must be plain Python values (see validate).
+            common = common.item()
         self.common = common
         self.rowid_dtype = self.ROWID_DTYPE
         for coords, rowids in entries.items():
@@ -454,6 +458,9 @@ class iindex(dict):
         multiple indexes that may have different common values, in order to
         use the same common value.
         """
+        if isinstance(new_common, numpy.generic):
+            new_common = new_common.item()
+
         if new_common is None:
             counts = defaultdict(int)
             for coords, rowids in self.items():
